@@ -89,13 +89,13 @@ def flag_dict_job(rng, kind):
     dco = {"A": Fraction(1), "B": Fraction(1, 2), "C": Fraction(1, 4)}
     net = {"environments": ["a", "b"], "species": species,
            "reactions": [{"eq": "%s -> %s" % (labels[0], labels[1]), "k+": 1.5}, {"eq": "%s + %s -> %s" % (labels[1], labels[2], labels[0]), "k+": 0.3}]}
-    env = [0, 1, 1]
+    env = [0, 1, 1, 0]                # four cells, three species: a flat index computed with the wrong stride shows
     if kind == "grid":
-        space = {"type": "grid", "w": 3, "h": 1, "d": 1, "cell_env": env}
-        pspace = {"kind": "grid", "w": 3, "h": 1, "d": 1, "px": False, "py": False, "pz": False}
+        space = {"type": "grid", "w": 4, "h": 1, "d": 1, "cell_env": env}
+        pspace = {"kind": "grid", "w": 4, "h": 1, "d": 1, "px": False, "py": False, "pz": False}
     else:
-        space = {"type": "graph", "nodes": [{"environment": e} for e in env], "edges": [{"nodes": [0, 1]}, {"nodes": [2, 1]}]}
-        pspace = {"kind": "graph", "edges": [(0, 1, um2, um), (2, 1, um2, um)]}
+        space = {"type": "graph", "nodes": [{"environment": e} for e in env], "edges": [{"nodes": [0, 1]}, {"nodes": [2, 1]}, {"nodes": [3, 2]}]}
+        pspace = {"kind": "graph", "edges": [(0, 1, um2, um), (2, 1, um2, um), (3, 2, um2, um)]}
     desc = {"network": net, "space": space}
     idx = {lab: k for k, lab in enumerate(labels)}
     def vec(*labs):
@@ -103,14 +103,14 @@ def flag_dict_job(rng, kind):
         for lab in labs:
             v[idx[lab]] += 1
         return v
-    phys = {"ns": 3, "n": 3, "labels": labels, "envs": ["a", "b"],
+    phys = {"ns": 3, "n": 4, "labels": labels, "envs": ["a", "b"],
             "reacs": [{"sub": vec(labels[0]), "prod": vec(labels[1]), "kf": [Fraction(3, 2)] * 2, "kr": [Fraction(0)] * 2},
                       {"sub": vec(labels[1], labels[2]), "prod": vec(labels[0]), "kf": [Fraction(3, 10) * um3] * 2, "kr": [Fraction(0)] * 2}],
-            "env": env, "vol": [um3] * 3, "edge": [um] * 3, "D": [[dco[lab] * um2] * 2 for lab in labels],
+            "env": env, "vol": [um3] * 4, "edge": [um] * 4, "D": [[dco[lab] * um2] * 2 for lab in labels],
             "dens": [[Fraction(dens[lab]) / um3] * 2 for lab in labels], "chem_env": [flag[lab] for lab in labels], "space": pspace}
     system = L.build_system(desc)
     exp = L.default_chem_phys(phys)
-    vals = [float(rng.choice([1, 2, 3, 5, 8, 20])) for _ in range(9)]
+    vals = [float(rng.choice([1, 2, 3, 5, 8, 20])) for _ in range(12)]
     C1.set_state(system, vals, L.DEFAULT_SYS, False)
     return {"desc": desc, "phys": phys, "info": {"kind": kind, "directed": "flag-dicts"}, "system": system, "x_si": L.state_si(system.state),
             "chem": exp, "exp_chem": exp, "real_chem": [int(v) for v in system.chemostats], "chem_mode": "keep",
@@ -152,6 +152,18 @@ def restore(case):
     return phys, system
 
 
+TRUTHY_FORMS = ["True", "1", "numpy.True_", "numpy.any(chemostats)"]
+FALSY_FORMS = ["False", "0", "numpy.False_"]
+
+
+def apply_value(form, system):
+    """the object handed to `apply_chemostats`: any truthy / falsy value must do (`numpy.any(chemostats)` is only used when
+    some entry is flagged, so that it is truthy)"""
+    import numpy
+    return {"True": True, "1": 1, "numpy.True_": numpy.True_, "False": False, "0": 0, "numpy.False_": numpy.False_,
+            "numpy.any(chemostats)": numpy.any(numpy.asarray(system.chemostats) != 0)}[form]
+
+
 # ------------------------------------------------------------------------------------------------ kinetics
 def check_kinetics(ctx, jobs):
     ops = []
@@ -174,8 +186,10 @@ def check_kinetics(ctx, jobs):
         for s in range(ns):
             for i in range(n):
                 e = s * n + i
-                case = dict(base_case(jb, "kinetics"), s=s, i=i, apply=True)
-                got = C1.kinetics_entry(system, s, i, True, U)
+                form = TRUTHY_FORMS[(e + len(chem)) % (4 if sum(jb["real_chem"]) else 3)]
+                ctx.count("apply_chemostats=" + form)
+                case = dict(base_case(jb, "kinetics"), s=s, i=i, apply=True, apply_form=form)
+                got = C1.kinetics_entry(system, s, i, apply_value(form, system), U)
                 ctx.case((fp, "kin", e), nontrivial=nontriv,
                          sample={"op": "compute_dspeciesdt(apply_chemostats=True)", "flag": chem[e], "impl": None if got[0] == "error" else float(got[0]),
                                  "rate": float(orc[e][0])})
@@ -186,17 +200,18 @@ def check_kinetics(ctx, jobs):
                         ctx.violation("chem-kinetics:raises", "compute_dspeciesdt raised %s on a chemostated entry" % got[1], case, impl=got[1], expected="0")
                     elif got[0] != 0 or tuple(got[1]) != L.D_RATE:
                         ctx.violation("chem-kinetics:flagged-nonzero",
-                                      "compute_dspeciesdt(apply_chemostats=True) of the chemostated entry (species %d, cell %d) is %r %s, not 0 amount/time"
-                                      % (s, i, float(got[0]), got[1]), case, impl=float(got[0]), expected="0")
+                                      "compute_dspeciesdt(apply_chemostats=%s) of the chemostated entry (species %d, cell %d) is %r %s, not 0 amount/time"
+                                      % (form, s, i, float(got[0]), got[1]), case, impl=float(got[0]), expected="0")
                 elif not jb["parallel"]:
                     C1.check_entry(ctx, got, exp, mag, U, case, "chem-kinetics:unflagged", "compute_dspeciesdt(apply_chemostats=True) of the free entry (species %d, cell %d)" % (s, i))
                 if m is not None and not C1.model_entry_matches(got, m["ok"]["entries"][e], mag):
                     ctx.disagree("dstate", case, None if got[0] == "error" else float(got[0]), m["ok"]["entries"][e])
                 # the flag is ignored when apply_chemostats=False
                 if chem[e] and not jb["parallel"]:
-                    got2 = C1.kinetics_entry(system, s, i, False, U)
+                    form2 = FALSY_FORMS[e % 3]
+                    got2 = C1.kinetics_entry(system, s, i, apply_value(form2, system), U)
                     if True:
-                        C1.check_entry(ctx, got2, exp, mag, U, dict(case, apply=False), "chem-kinetics:ignore-flag",
+                        C1.check_entry(ctx, got2, exp, mag, U, dict(case, apply=False, apply_form=form2), "chem-kinetics:ignore-flag",
                                        "compute_dspeciesdt(apply_chemostats=False) of the flagged entry (species %d, cell %d)" % (s, i))
 
 
@@ -512,15 +527,107 @@ def source_scenarios(ctx):
                     ctx.violation(key, "%s on a %s, %s scenario: %s" % (option, kind, scen, what), case, impl=detail["last"], expected=detail.get("expected", detail.get("expected_mean")))
 
 
+TWO_SIM_CHILD = r"""
+import sys, json, ctypes
+from fractions import Fraction
+sys.path.insert(0, %(harness)r)
+import common
+common.use_repo_package()
+import determ_lib as L
+import engine_io
+import strengths as st
+from strengths.librdengine import LibRDEngine
+lib = ctypes.CDLL(%(so)r)
+order = %(order)r
+
+def system(kind, with_chem, ns, f):
+    labels = L.LABELS[:ns]
+    species = [{"label": lab, "D": 1.0, "density": 0} for lab in labels]
+    net = {"species": species, "reactions": [{"eq": "%%s -> %%s" %% (labels[f], labels[(f + 1) %% ns]), "k+": 0.5}]}
+    space = {"type": "grid", "w": 3, "h": 1, "d": 1} if kind == "grid" else \
+        {"type": "graph", "nodes": [{}, {}, {}], "edges": [{"nodes": [0, 1]}, {"nodes": [1, 2]}]}
+    sy = L.build_system({"network": net, "space": space})
+    x = [0.0] * (ns * 3)
+    for s in range(ns):
+        x[s * 3 + 0] = 40.0 + 10 * s
+        x[s * 3 + 2] = 7.0
+    sy.state = x
+    sy.reset_chemostats()
+    if with_chem:
+        sy.set_chemostat(f, 0, 1)
+        sy.set_chemostat((f + 1) %% ns, 2, 1)
+    return sy
+
+def run(sy, option, seed):
+    script = st.RDScript(sy, t_sample=[0], time_step=1.0 / 64, t_max=1e9, sampling_policy="on_iteration", rng_seed=seed)
+    eng = LibRDEngine(lib, option=option, requires_molecules=(option != "euler"))
+    eng.setup(script)
+    k = 0
+    while k < 12 and eng.iterate():
+        k += 1
+    out = eng.get_output()
+    eng.finalize()
+    return [s_[1] for s_ in engine_io.samples(out)], [int(v) for v in sy.chemostats]
+
+res = {}
+for kind in ("grid", "graph"):
+    for option in ("euler", "tauleap", "gillespie"):
+        ns, f, seed = %(ns)d, %(f)d, %(seed)d
+        runs = []
+        for w in order:
+            runs.append(run(system(kind, w == "B", ns, f), option, seed))
+        res[kind + ":" + option] = runs
+print(json.dumps(res))
+"""
+
+
+def two_simulations(ctx):
+    """function-static state of the native engine is initialised by the FIRST simulation of a process: in a fresh child process,
+    simulation A (no chemostat at all) then simulation B (chemostated entries) — and B, A, B in a second child — for every
+    engine on grid and graph.  B after A must keep its flagged entries (the C03 oracle) and must equal B run first."""
+    import json as _json
+    so = common.build_engine("plain")
+    ns, f, seed = ctx.rng.choice([2, 3]), 0, ctx.rng.randrange(1, 2 ** 31 - 1)
+    f = ctx.rng.randrange(ns)
+    outs = {}
+    for order in (["A", "B"], ["B", "A", "B"]):
+        code = TWO_SIM_CHILD % {"harness": common.os.path.join(common.VERIF, "harness"), "so": so, "order": order, "ns": ns, "f": f, "seed": seed}
+        status, out = common.run_child(code, timeout=120)
+        if status != "ok":
+            ctx.violation("two-sim:child", "the two-simulation child process ended with %s" % status, {"kind": "two-sim", "order": order}, impl=out[-300:])
+            return
+        outs["".join(order)] = _json.loads(out.strip().splitlines()[-1])
+    for key in outs["AB"]:
+        kind, option = key.split(":")
+        b_after_a, chem = outs["AB"][key][1]
+        b_first = outs["BAB"][key][0][0]
+        b_again = outs["BAB"][key][2][0]
+        case = {"kind": "two-sim", "space": kind, "option": option, "ns": ns, "flagged": f, "seed": seed}
+        ctx.case(("two-sim", kind, option, ns, f), nontrivial=True, sample={"op": "two simulations in one process", "engine": option, "space": kind,
+                                                                              "B_after_A_last": b_after_a[-1]})
+        ctx.count("two_simulations")
+        bad = [(k, e) for k in range(len(b_after_a)) for e in range(len(chem)) if chem[e] and b_after_a[k][e] != b_after_a[0][e]]
+        if bad:
+            k, e = bad[0]
+            ctx.violation("chem-traj:%s:after-unflagged-run" % option,
+                          "%s on a %s: after a first simulation WITHOUT any chemostat in the same process, the chemostated entry %d of the second simulation "
+                          "is %r in sample %d but %r in sample 0" % (option, kind, e, b_after_a[k][e], k, b_after_a[0][e]), dict(case, order="AB"),
+                          impl=b_after_a[k][e], expected=b_after_a[0][e])
+        elif b_after_a != b_first or b_again != b_first:
+            ctx.violation("two-sim:history:%s" % option, "%s on a %s: the same simulation gives different trajectories depending on what was simulated before "
+                          "it in the process" % (option, kind), dict(case, order="AB vs B"), impl=b_after_a[-1], expected=b_first[-1])
+
+
 def run(ctx):
     rng = ctx.rng
     C1.out_of_time(ctx)          # start the harness clock
+    two_simulations(ctx)
     source_scenarios(ctx)
-    nsys = ctx.n(36, 500)
+    nsys = ctx.n(30, 500)
     jobs = [flag_dict_job(rng, "grid"), flag_dict_job(rng, "graph")]
     ctx.count("directed_flag_dicts", 2)
     for k in range(nsys):
-        if C1.out_of_time(ctx, -5 if ctx.tier == "quick" else 0):
+        if C1.out_of_time(ctx, -8 if ctx.tier == "quick" else 0):
             ctx.notes.append("stopped generating after %d systems (time budget)" % k)
             break
         kind = "grid" if k % 2 == 0 else "graph"
@@ -556,6 +663,17 @@ def replay(ctx, rec):
     case = rec.get("case", rec)
     if case["kind"] == "scenario":
         return replay_scenario(case)
+    if case["kind"] == "two-sim":
+        import json as _json
+        so = common.build_engine("plain")
+        code = TWO_SIM_CHILD % {"harness": common.os.path.join(common.VERIF, "harness"), "so": so, "order": ["A", "B"], "ns": case["ns"],
+                                "f": case["flagged"], "seed": case["seed"]}
+        status, out = common.run_child(code, timeout=120)
+        if status != "ok":
+            return False, {"child": status, "out": out[-300:]}
+        b, chem = _json.loads(out.strip().splitlines()[-1])[case["space"] + ":" + case["option"]][1]
+        ok = all(b[k][e] == b[0][e] for k in range(len(b)) for e in range(len(chem)) if chem[e])
+        return ok, {"chem": chem, "B_after_A_first": b[0], "B_after_A_last": b[-1]}
     phys, system = restore(case)
     chem = [int(v) for v in case["chem"]]        # the flags the description + per-cell assignments declare
     n, ns = phys["n"], phys["ns"]
@@ -565,7 +683,8 @@ def replay(ctx, rec):
         orc = L.oracle_rate(phys, x)
         s, i = case["s"], case["i"]
         e = s * n + i
-        got = C1.kinetics_entry(system, s, i, case.get("apply", True), tuple(case["U"]))
+        applyv = apply_value(case["apply_form"], system) if case.get("apply_form") else case.get("apply", True)
+        got = C1.kinetics_entry(system, s, i, applyv, tuple(case["U"]))
         flagged = chem[e] and case.get("apply", True)
         exp = Fraction(0) if flagged else orc[e][0]
         out.update(entry=[s, i], flag=chem[e], impl=(got[1] if got[0] == "error" else float(got[0])), expected=float(exp))
